@@ -627,3 +627,17 @@ func (db *DB) Deadlocks() int {
 	defer db.mu.Unlock()
 	return db.deadlocks
 }
+
+// SessionLockHeld says whether the session a lock wait names (the pseudo id -(1<<40)-conn used for session-level
+// advisory locks) still holds a session-level advisory lock.
+func (db *DB) SessionLockHeld(waitFor int64) bool {
+	db.mu.Lock()
+	defer db.mu.Unlock()
+	conn := -waitFor - (1 << 40)
+	for _, l := range db.advisory {
+		if l.session && l.owner == conn && l.count > 0 {
+			return true
+		}
+	}
+	return false
+}
